@@ -97,7 +97,8 @@ CLAIMS = {
     "C06": (
         "LTS level: C06_no_false, C06_answers_request, C06_enabled_when_published (a blocked lookup can return as soon as a "
         "matching resource or factory is there), C06_not_released_by_others, C06_other_publication, C06_published_stays, "
-        "C06_optional_immediate. Mechanism level (lean/AsphaltModel/Waiter.lean, the protocol of "
+        "C06_optional_immediate; a factory registered for several types: C06_multi_answers, _all_types (one product, stored under "
+        "every pair of the factory that is still free), _frame. Mechanism level (lean/AsphaltModel/Waiter.lean, the protocol of "
         "ComponentContext.get_resource over a bounded event queue): C06_waiter_invariant, C06_waiter_no_lost (for every "
         "interleaving of publications and waiter steps, with any queue size >= 1), C06_waiter_no_false, C06_waiter_monotone, "
         "C06_waiter_cap_needed. " + STARTUP_NOTE,
